@@ -31,6 +31,7 @@ import (
 )
 
 type cfg struct {
+	pre bool
 	stage, pkg, mode string
 	mon              string // fork.Fold / Fold: monoid name (default: the non-commutative affine one)
 	cap, par, n, fn  int
@@ -84,6 +85,8 @@ func parseCfg(s string) cfg {
 			c.freq = iv
 		case "dl":
 			c.dl = iv
+		case "pre": // the caller's context is already cancelled when the stage is created (the script starts with `x`)
+			c.pre = iv != 0
 		case "work":
 			c.work = iv
 		case "unit":
@@ -477,6 +480,9 @@ func runScript(t *testing.T, line string) (res string) {
 		if c.dl > 0 {
 			// a caller's context with a deadline (virtual clock): cancelled by the runtime when the deadline passes
 			ctx, cancel = context.WithTimeout(context.Background(), time.Duration(c.dl)*time.Millisecond)
+		}
+		if c.pre {
+			cancel()
 		}
 		e := &env{c: c, gates: map[int]chan struct{}{}}
 		var ins []chan int
